@@ -186,8 +186,27 @@ pub fn run_shard<P: Property>(p: &P, tier: Tier, seed: u64, shard: usize, shards
         let mut runner = TestRunner::new_with_rng(config, TestRng::from_seed(RngAlgorithm::ChaCha, &seed_bytes(seed, p.id(), shard)));
         let strat = p.strategy(tier);
         let res = runner.run(&strat, |g| {
+            let t_case = Instant::now();
+            if std::env::var_os("HV_TRACE").is_some() {
+                let r = rep.borrow();
+                eprintln!("[trace] t={:?} evals={} skipped={:?} failed={}", t0.elapsed(), r.evaluations, r.skipped, failed.get());
+            }
             let case = p.concretize(&g);
             let counting = !failed.get();
+            struct Trace<'a>(Instant, &'a dyn Fn() -> String);
+            impl Drop for Trace<'_> {
+                fn drop(&mut self) {
+                    if std::env::var_os("HV_TRACE").is_some() && self.0.elapsed().as_millis() > 300 {
+                        eprintln!("[trace] slow case {:?}: {}", self.0.elapsed(), (self.1)());
+                    }
+                }
+            }
+            let describe = || {
+                let mut s = serde_json::to_string(&case).unwrap();
+                s.truncate(600);
+                s
+            };
+            let _trace = Trace(t_case, &describe);
             let mut scratch = Stats::default();
             let mut r = rep.borrow_mut();
             let out = if counting {
@@ -235,6 +254,9 @@ pub fn run_shard<P: Property>(p: &P, tier: Tier, seed: u64, shard: usize, shards
                         r.evaluations += 1;
                         failed.set(true);
                         *first_fail_case.borrow_mut() = Some(serde_json::to_value(&case).unwrap());
+                        if f.kind != "hang" {
+                            crate::judge::FAST_REJECT.store(true, std::sync::atomic::Ordering::Relaxed);
+                        }
                     } else if let Some(prev) = &*last_fail.borrow() {
                         // shrinking must preserve the failure kind
                         if prev.kind != f.kind {
@@ -251,8 +273,11 @@ pub fn run_shard<P: Property>(p: &P, tier: Tier, seed: u64, shard: usize, shards
             Err(TestError::Fail(_, g)) => {
                 let case = p.concretize(&g);
                 let f = last_fail.borrow().clone().unwrap();
+                MIN_DEADLINE.with(|d| d.set(Some(Instant::now() + std::time::Duration::from_secs(if tier == Tier::Quick { 45 } else { 240 }))));
                 let case = p.minimize(case, &f.kind);
+                MIN_DEADLINE.with(|d| d.set(None));
                 // re-derive the detail from the minimal case
+                crate::judge::FAST_REJECT.store(false, std::sync::atomic::Ordering::Relaxed);
                 let mut scratch = Stats::default();
                 let f = match p.check(&case, &mut scratch) {
                     Outcome::Fail(f2) => f2,
@@ -283,6 +308,15 @@ pub fn replay_case<P: Property>(p: &P, v: &serde_json::Value) -> Result<Outcome,
 /// Text-level delta debugging for Brainfuck programs: remove chunks, unwrap
 /// matching bracket pairs; `test` returns true when the candidate still fails
 /// in the same way. Candidates are always bracket-balanced.
+thread_local! {
+    /// Wall-clock limit for post-shrink minimisation (a limit hit only ends minimisation early).
+    pub static MIN_DEADLINE: std::cell::Cell<Option<Instant>> = std::cell::Cell::new(None);
+}
+
+fn past_deadline() -> bool {
+    MIN_DEADLINE.with(|d| d.get().map(|t| Instant::now() > t).unwrap_or(false))
+}
+
 pub fn ddmin_program(mut code: String, budget: &mut u32, test: &mut dyn FnMut(&str) -> bool) -> String {
     use crate::refmodel::balanced;
     loop {
@@ -291,7 +325,7 @@ pub fn ddmin_program(mut code: String, budget: &mut u32, test: &mut dyn FnMut(&s
         while sz >= 1 {
             let mut i = 0;
             while i + sz <= code.len() {
-                if *budget == 0 {
+                if *budget == 0 || past_deadline() {
                     return code;
                 }
                 if !code.is_char_boundary(i) || !code.is_char_boundary(i + sz) {
@@ -332,7 +366,7 @@ pub fn ddmin_program(mut code: String, budget: &mut u32, test: &mut dyn FnMut(&s
                     }
                     j += 1;
                 }
-                if *budget == 0 {
+                if *budget == 0 || past_deadline() {
                     return code;
                 }
                 let cand = format!("{}{}{}", &code[..i], &code[i + 1..j], &code[j + 1..]);
@@ -355,7 +389,7 @@ pub fn ddmin_program(mut code: String, budget: &mut u32, test: &mut dyn FnMut(&s
 pub fn ddmin_bytes(mut v: Vec<u8>, budget: &mut u32, test: &mut dyn FnMut(&[u8]) -> bool) -> Vec<u8> {
     let mut k = 0;
     while k < v.len() {
-        if *budget == 0 {
+        if *budget == 0 || past_deadline() {
             return v;
         }
         let mut cand = v.clone();
